@@ -55,7 +55,19 @@ pub fn families(prop: &str, tier: Tier) -> Vec<Cfg> {
             b.max_conns = 3;
             b.max_reqs = if q { 3 } else { 4 };
             b.dev = 2;
-            vec![a, b]
+            let mut c = Cfg::base("C02-buffering-transport");
+            c.props = vec!["C02"];
+            c.ops = vec![OpK::Pub1, OpK::Poll, OpK::DropConn];
+            c.io = IoMenu::faults_only();
+            c.io.write_pending = true;
+            c.io.flush_pending = true;
+            c.io.deliver_on_flush = true;
+            c.cancel = true;
+            c.max_ops = if q { 6 } else { 8 };
+            c.max_conns = 3;
+            c.max_reqs = 3;
+            c.dev = 2;
+            vec![a, b, c]
         }
         "C03" => {
             let mut a = Cfg::base("C03-qos2-orders-and-crashes");
@@ -322,7 +334,29 @@ pub fn families(prop: &str, tier: Tier) -> Vec<Cfg> {
             c.max_conns = 1;
             c.max_reqs = 2;
             c.dev = 2;
-            vec![a, b, c]
+            // buffering transport (bytes reach the broker at flush): a packet whose flush was interrupted must
+            // still get out
+            let mut d = Cfg::base("C13-cancel-on-buffering-transport");
+            d.props = vec!["C13"];
+            d.twin = Some(Twin::Cancel);
+            d.drain_script = true;
+            d.prune = false;
+            d.cancel = true;
+            d.cancel_connect = false;
+            d.ops = vec![OpK::Pub1, OpK::Pub2, OpK::Sub, OpK::Poll, OpK::Drive];
+            d.io = IoMenu::benign();
+            d.io.write_pending = true;
+            d.io.flush_pending = true;
+            d.io.read_pending = true;
+            d.io.deliver_on_flush = true;
+            d.broker.script = vec![inpub(1, 11), inpub(2, 12)];
+            d.broker.reorder_window = 1;
+            d.broker.fifo = true;
+            d.max_ops = if q { 4 } else { 5 };
+            d.max_conns = 1;
+            d.max_reqs = 3;
+            d.dev = 2;
+            vec![a, b, c, d]
         }
         "C15" => {
             let mut a = Cfg::base("C15-partial-and-pending-transport-answers");
@@ -350,13 +384,21 @@ pub fn families(prop: &str, tier: Tier) -> Vec<Cfg> {
             b.io.read_partial = true;
             b.io.all_partials_upto = 32;
             b.broker.script = if q { vec![inpub(1, 11), inpub(0, 0)] } else { vec![inpub(1, 11), inpub(2, 12), inpub(0, 0)] };
+            // the same stream sitting in the transport all at once, with a zero-length packet in front
+            let mut c = b.clone();
+            c.family = "C15-all-chunkings-of-back-to-back-packets";
+            c.broker.script = if q { vec![inpub(9, 0), inpub(1, 11)] } else { vec![inpub(0, 0), inpub(9, 0), inpub(1, 11), inpub(9, 0)] };
+            c.broker.script_burst = true;
             b.broker.reorder_window = 1;
             b.broker.fifo = true;
             b.max_ops = if q { 3 } else { 4 };
             b.max_conns = 1;
             b.max_reqs = 0;
             b.dev = 40;
-            vec![a, b]
+            c.max_ops = b.max_ops;
+            c.max_reqs = 0;
+            c.dev = 40;
+            vec![a, b, c]
         }
         "C16" => {
             let mut a = Cfg::base("C16-progress-after-partials-cancels-faults");
@@ -392,7 +434,22 @@ pub fn families(prop: &str, tier: Tier) -> Vec<Cfg> {
             c.max_conns = 2;
             c.max_reqs = 2;
             c.dev = 2;
-            vec![a, b, c]
+            // buffering transport: every interrupted flush must be resumed
+            let mut d = Cfg::base("C16-buffering-transport");
+            d.props = vec!["C16"];
+            d.ops = vec![OpK::Pub1, OpK::Pub2, OpK::Sub, OpK::Poll, OpK::Drive, OpK::DropConn];
+            d.io = IoMenu::benign();
+            d.io.write_pending = true;
+            d.io.flush_pending = true;
+            d.io.read_pending = true;
+            d.io.deliver_on_flush = true;
+            d.cancel = true;
+            d.broker.script = vec![inpub(1, 21), inpub(2, 22)];
+            d.max_ops = if q { 5 } else { 6 };
+            d.max_conns = 2;
+            d.max_reqs = 3;
+            d.dev = if q { 2 } else { 3 };
+            vec![a, b, c, d]
         }
         "C18" => {
             let mut a = Cfg::base("C18-status-after-every-step");
